@@ -65,6 +65,21 @@ Proof. intros H. destruct (nanmin_spec l H) as [Hi _]. destruct (nanmax_spec l H
 Lemma map_nonempty {A B} (f : A -> B) l : l <> [] -> map f l <> [].
 Proof. destruct l; cbn; congruence. Qed.
 
+(* characterisation of the REGENERATED pieces of _compute_bound_centers / _compute_new_x_corners_for_antimeridian,
+   in every arithmetic *)
+Lemma gen_am_test_char {T} (OP : ops T) xmin xmax ymin ymax geo :
+  gen_am_test OP xmin xmax ymin ymax (mk_crs geo) =
+    geo && passes_antimeridian OP xmin xmax && negb (y_is_pole OP ymin ymax).
+Proof. reflexivity. Qed.
+Lemma new_x_corners_char {T} (OP : ops T) (wrap360 : T -> T) mode xs :
+  new_x_corners OP wrap360 mode xs =
+    match mode with
+    | MGlobal => None
+    | MCrs => Some (sub OP (nanmin OP (map wrap360 xs)) (ofZ OP 180), sub OP (nanmax OP (map wrap360 xs)) (ofZ OP 180))
+    | _ => Some (nanmin OP (map wrap360 xs), nanmax OP (map wrap360 xs))
+    end.
+Proof. destruct mode; reflexivity. Qed.
+
 (* _compute_new_x_corners_for_antimeridian: every x, taken modulo 360 (and shifted by the new prime meridian for
    modify_crs), lies between the new corners; global_extents returns None *)
 Definition pm_of (mode : amode) : R := match mode with MCrs => 180 | _ => 0 end.
@@ -80,7 +95,7 @@ Proof.
   pose proof (nanmin_le_nanmax _ Hw) as Hle.
   assert (Hin : forall x, In x xs -> nanmin RO (map wrapR xs) <= wrapR x <= nanmax RO (map wrapR xs)).
   { intros x Hx. split; [apply Hmin | apply Hmax]; apply in_map, Hx. }
-  destruct mode; cbn [new_x_corners pm_of]; try reflexivity;
+  rewrite new_x_corners_char. destruct mode; cbn [pm_of]; try reflexivity;
     (split; [discriminate|]); cbn [sub ofZ RO]; (split; [lra|]); intros x Hx; specialize (Hin x Hx); lra.
 Qed.
 
@@ -96,7 +111,7 @@ Lemma bound_centers_spec geo mode pts pm xc y0 y1 : valid_pts pts ->
   | None => geo = true /\ mode = MGlobal /\ pm = false
   end /\ (geo = false -> pm = false).
 Proof.
-  intros (Hne & Hx & Hy). unfold bound_centers.
+  intros (Hne & Hx & Hy). unfold bound_centers. rewrite gen_am_test_char.
   rewrite (map_clean_id fst pts Hx), (map_clean_id snd pts Hy).
   pose proof (map_nonempty fst pts Hne) as Hnx. pose proof (map_nonempty snd pts Hne) as Hny.
   pose proof (nanmin_spec _ Hny) as [_ Hymin]. pose proof (nanmax_spec _ Hny) as [_ Hymax].
